@@ -422,12 +422,16 @@ Qed.
 Lemma n_send_subscribe ttl a gs : neutral (send_subscribe ttl a gs).
 Proof. intros w. apply n_send_sd. Qed.
 
-Lemma n_subscribe_eventgroup g ep : neutral (subscribe_eventgroup g ep).
+Lemma n_note_dup g ep : neutral (note_dup g ep).
+Proof. intros w. unfold note_dup. destruct (requested _ _ _); [|apply same_refl]. triv_same. Qed.
+Lemma n_subscribe_core g ep : neutral (subscribe_core g ep).
 Proof.
-  intros w. unfold subscribe_eventgroup. destruct (sub_alive _).
+  intros w. unfold subscribe_core. destruct (sub_alive _).
   - eapply same_trans; [apply n_set_sub_entries|apply n_call_soon; reflexivity].
   - apply n_set_sub_entries.
 Qed.
+Lemma n_subscribe_eventgroup g ep : neutral (subscribe_eventgroup g ep).
+Proof. intros w. unfold subscribe_eventgroup. eapply same_trans; [apply n_note_dup|apply n_subscribe_core]. Qed.
 Lemma n_stop_subscribe_eventgroup g ep b : neutral (stop_subscribe_eventgroup g ep b).
 Proof.
   intros w. unfold stop_subscribe_eventgroup. destruct (remove_first _ _ _); [|apply same_refl].
